@@ -32,6 +32,7 @@ Variable casefold : lbl -> lbl.
 Definition gen_step (w : world) (o : op) : world * out :=
   match o with
   | AddTaxon t => eff w (py_add_taxon w (VTaxon t)) v_unit
+  | AddTaxa ts => eff w (py_add_taxa w (VList (map VTaxon ts))) v_unit
   | NewTaxon l => eff w (py_new_taxon w (VLabel l)) v_tax
   | NewTaxa ls => eff w (py_new_taxa w (VList (map VLabel ls))) v_taxa
   | RequireTaxon l cs => eff w (py_require_taxon lower casefold w (VLabel l) (cs_val cs)) v_tax
@@ -64,6 +65,7 @@ Theorem gen_step_eq_l (w : world) (o : op) :
 Proof.
   intros Hn Hc. destruct o; cbn [gen_step step]; try reflexivity.
   - rewrite gen_add_taxon_l. unfold lift_ns_v, lift_ns. destruct (add_taxon (w_ns w) t); reflexivity.
+  - rewrite gen_add_taxa_l. unfold lift_ns_v, lift_ns. destruct (add_taxa (w_ns w) ts); reflexivity.
   - rewrite gen_new_taxon_l. unfold new_taxon_v. destruct (new_taxon w l) as [[w' t]| |]; reflexivity.
   - rewrite gen_new_taxa_l. unfold new_taxa_v. destruct (negb (is_mut (w_ns w))); [reflexivity|].
     destruct (new_taxa w ls []) as [[w' ts]| |]; cbn [eff v_taxa]; [rewrite untaxon_map|..]; reflexivity.
